@@ -21,10 +21,19 @@ package tracer
 // before the wait has run out replaces it for good, otherwise it is handed over when the wait runs
 // out (or when the connection goes away); every other attempt is handed over when it ends.
 
+//
+// Family "listener": 2-3 connections accepted from ONE TracingHTTP2Listener (the entry point of the servers),
+// histories of refusals / retries / other calls / connections going away / time passing spread over them; see
+// the comment of that family below.
+
 import (
+	"bytes"
 	"encoding/binary"
 	"encoding/json"
+	"errors"
 	"fmt"
+	"io"
+	"net"
 	"os"
 	"reflect"
 	"runtime/debug"
@@ -55,6 +64,10 @@ type c15ConnCase struct {
 	Gaps  []int  `json:"gaps,omitempty"`  // milliseconds between the end of attempt i and the start of attempt i+1
 	Other bool   `json:"other,omitempty"` // another call (other test name) is refused at time 0 and never retried
 	Fin   string `json:"fin,omitempty"`   // close | wait-close | eof
+	// listener: operations on the connections accepted from one traced listener, see c15LstOps
+	Ops     []string `json:"ops,omitempty"`
+	NConn   int      `json:"nconn,omitempty"`
+	EndKind string   `json:"endkind,omitempty"` // how an "e" operation ends its connection: eof | close | write-fails
 }
 
 // ---------------------------------------------------------------------------
@@ -74,6 +87,7 @@ func c15ConnPairs(thorough bool) []c15Pair {
 		{A: plain, B: c15Shape{Named: true, NReq: 1, Variant: "goaway"}},
 		{A: c15Shape{Named: true, NReq: 1, NResp: 0, RespCont: true}, B: c15Shape{Named: true, NReq: 1, Variant: "rstc-early"}},
 		{A: c15Shape{Named: true, NReq: 1, NResp: 1, Pad: 7 + 1, PadOnly: true}, B: c15Shape{Named: true, NReq: 0, NResp: 1}},
+		{A: c15Shape{Named: true, NReq: 1, NResp: 1, ReqTrail: 1}, B: c15Shape{Named: true, NReq: 1, NResp: 0, Bidi: true, ReqTrail: 2}},
 	}
 	if thorough {
 		seen := map[string]bool{}
@@ -160,6 +174,8 @@ func c15ConnModel(bt *c15Built, items []c15Item, prefix int) [2]c15ConnExpect {
 		case it.Opens:
 			a.opened = true
 			a.reqEnded = it.EndStream
+		case it.Dir == c15DirReq: // trailers of the request
+			a.reqEnded = a.reqEnded || it.EndStream
 		case it.Dir == c15DirResp && !a.respHdr:
 			a.respHdr, a.respField = true, it.Fields
 		}
@@ -612,6 +628,12 @@ func c15AttemptItems(other bool, attempt int, stream uint32, outcome byte) []c15
 	switch outcome {
 	case 'R': // the server refuses the stream as soon as it sees it
 		return []c15Item{h, {Call: idx, Dir: c15DirResp, Kind: 'R', Stream: stream, Code: http2.ErrCodeRefusedStream}}
+	case 'G': // graceful shutdown: GOAWAY(NO_ERROR) whose last-stream-id is below the stream: not processed, may be retried
+		last := uint32(0)
+		if stream > 2 {
+			last = stream - 2
+		}
+		return []c15Item{h, {Call: idx, Dir: c15DirResp, Kind: 'G', LastID: last, Code: http2.ErrCodeNo}}
 	case 'S':
 		return []c15Item{h,
 			{Call: idx, Dir: c15DirReq, Kind: 'D', Stream: stream, Data: reqMsg, EndStream: true},
@@ -718,8 +740,82 @@ func c15RetryOutcomeOf(t *Trace) byte {
 		return 'A'
 	case kind == "stream" && code == uint32(http2.ErrCodeInternal):
 		return 'E'
+	case kind == "conn" && code == uint32(http2.ErrCodeNo):
+		return 'G'
 	}
 	return '?'
+}
+
+// c15RetryGot: one trace the collector received, as the retry oracle sees it.
+type c15RetryGot struct {
+	attempt string
+	outcome byte
+	at      time.Duration
+}
+
+func c15RetryGots(res *c15Result) map[string][]c15RetryGot {
+	byName := map[string][]c15RetryGot{}
+	for i := range res.Traces {
+		t := &res.Traces[i]
+		g := c15RetryGot{outcome: c15RetryOutcomeOf(t), at: res.TraceAt[i]}
+		if t.Request != nil {
+			g.attempt = t.Request.Header.Get("X-Attempt-Number")
+		}
+		byName[t.TestName] = append(byName[t.TestName], g)
+	}
+	return byName
+}
+
+func c15RetryDescribe(gs []c15RetryGot) string {
+	var parts []string
+	for _, g := range gs {
+		parts = append(parts, fmt.Sprintf("attempt %s (%c) at %v", g.attempt, g.outcome, g.at))
+	}
+	return "[" + strings.Join(parts, ", ") + "]"
+}
+
+func c15RetryDescribeModel(ds []c15RetryDelivery) string {
+	var parts []string
+	for _, d := range ds {
+		parts = append(parts, fmt.Sprintf("attempt %d (%c) by %v", d.Attempt, d.Outcome, d.By))
+	}
+	return "[" + strings.Join(parts, ", ") + "]"
+}
+
+// c15RetryCheck compares what the collector received for one test name with the reference model:
+// the same attempts in the same order, the same outcomes, none later than the model says.
+// key "" = as demanded.
+func c15RetryCheck(gs []c15RetryGot, what string, model []c15RetryDelivery) (key, ctx string) {
+	ctx = fmt.Sprintf("%s: delivered %s, reference model %s (R = refused, G = dropped by a graceful GOAWAY, S = succeeded, A = cancelled by the client, E = reset by the server; retryWait = %v)", what, c15RetryDescribe(gs), c15RetryDescribeModel(model), retryWait)
+	same := len(gs) == len(model)
+	for i := 0; same && i < len(gs); i++ {
+		same = gs[i].attempt == fmt.Sprint(model[i].Attempt)
+	}
+	if !same {
+		inModel := map[string]bool{}
+		for _, d := range model {
+			inModel[fmt.Sprint(d.Attempt)] = true
+		}
+		key = "wrong-traces"
+		for _, g := range gs {
+			if !inModel[g.attempt] && (g.outcome == 'R' || g.outcome == 'G') {
+				key = "refused-attempt-delivered-although-retried-in-time"
+			}
+		}
+		if len(gs) < len(model) && key == "wrong-traces" {
+			key = "trace-missing"
+		}
+		return key, ctx
+	}
+	for i, g := range gs {
+		if g.outcome != model[i].Outcome {
+			return "wrong-outcome", ctx
+		}
+		if g.at > model[i].By {
+			return "trace-late", ctx
+		}
+	}
+	return "", ctx
 }
 
 // must be called inside a synctest bubble
@@ -736,68 +832,10 @@ func c15RunRetryCase(cs *c15ConnCase) (res c15Result, vs []c15Verdict) {
 		return res, append(vs, c15Verdict{"tracer-gave-up", fmt.Sprintf("the frame tracer gave up on well-formed traffic (request direction=%v, response direction=%v)", res.BrokenReq, res.BrokenResp)})
 	}
 	model, end := c15RetryModel(cs.Hist, cs.Gaps, cs.Fin)
-	type got struct {
-		attempt string
-		outcome byte
-		at      time.Duration
-	}
-	byName := map[string][]got{}
-	for i := range res.Traces {
-		t := &res.Traces[i]
-		g := got{outcome: c15RetryOutcomeOf(t), at: res.TraceAt[i]}
-		if t.Request != nil {
-			g.attempt = t.Request.Header.Get("X-Attempt-Number")
-		}
-		byName[t.TestName] = append(byName[t.TestName], g)
-	}
-	describe := func(gs []got) string {
-		var parts []string
-		for _, g := range gs {
-			parts = append(parts, fmt.Sprintf("attempt %s (%c) at %v", g.attempt, g.outcome, g.at))
-		}
-		return "[" + strings.Join(parts, ", ") + "]"
-	}
-	describeModel := func(ds []c15RetryDelivery) string {
-		var parts []string
-		for _, d := range ds {
-			parts = append(parts, fmt.Sprintf("attempt %d (%c) by %v", d.Attempt, d.Outcome, d.By))
-		}
-		return "[" + strings.Join(parts, ", ") + "]"
-	}
+	byName := c15RetryGots(&res)
 	check := func(name, what string, model []c15RetryDelivery) {
-		gs := byName[name]
-		ctx := fmt.Sprintf("%s: delivered %s, reference model %s (R = refused, S = succeeded, A = cancelled by the client, E = reset by the server; retryWait = %v)", what, describe(gs), describeModel(model), retryWait)
-		// the same attempts in the same order
-		same := len(gs) == len(model)
-		for i := 0; same && i < len(gs); i++ {
-			same = gs[i].attempt == fmt.Sprint(model[i].Attempt)
-		}
-		if !same {
-			inModel := map[string]bool{}
-			for _, d := range model {
-				inModel[fmt.Sprint(d.Attempt)] = true
-			}
-			key := "retry-history:wrong-traces"
-			for _, g := range gs {
-				if !inModel[g.attempt] && g.outcome == 'R' {
-					key = "retry-history:refused-attempt-delivered-although-retried-in-time"
-				}
-			}
-			if len(gs) < len(model) && key == "retry-history:wrong-traces" {
-				key = "retry-history:trace-missing"
-			}
-			vs = append(vs, c15Verdict{key, ctx})
-			return
-		}
-		for i, g := range gs {
-			if g.outcome != model[i].Outcome {
-				vs = append(vs, c15Verdict{"retry-history:wrong-outcome", ctx})
-				return
-			}
-			if g.at > model[i].By {
-				vs = append(vs, c15Verdict{"retry-history:trace-late", ctx})
-				return
-			}
+		if key, ctx := c15RetryCheck(byName[name], what, model); key != "" {
+			vs = append(vs, c15Verdict{"retry-history:" + key, ctx})
 		}
 	}
 	check(c15RetryName(false), "attempts "+cs.Hist, model)
@@ -892,11 +930,467 @@ func (x *c15ConnRun) retries(t *testing.T, thorough bool) {
 }
 
 // ---------------------------------------------------------------------------
+// family "listener": several connections accepted from ONE TracingHTTP2Listener
+//
+// The server-side entry point of the reference servers is TracingHTTP2Listener(l, collector).Accept.  A
+// scripted net.Listener hands out scripted connections; a history is a sequence of operations, each on
+// one of the connections, in virtual time:
+//
+//	r<c>  an attempt of test name A on connection c which the server refuses (RST_STREAM REFUSED_STREAM)
+//	g<c>  ... which the server drops by a graceful GOAWAY(NO_ERROR) with a lower last-stream-id
+//	      (no further stream on that connection afterwards)
+//	s<c>  an attempt of test name A on connection c that succeeds
+//	n<c>  a call of ANOTHER test name on connection c that succeeds (at most once per history)
+//	e<c>  connection c goes away (EndKind: the peer closes = io.EOF on Read then Close | Close | a Write fails then Close)
+//	w     2 s pass (one: still within retryWait; two: beyond it)
+//
+// At the end the connections still open are closed in order.  Reference model (same rules as the family
+// "retries", per connection because "the connection going away" is an event of ONE connection): a refused
+// attempt is held back; an attempt of the same name that starts ON THE SAME CONNECTION before retryWait has
+// passed replaces it for good; otherwise it is handed over when the wait runs out or when ITS connection goes
+// away; whatever happens to another connection changes nothing.  The property says nothing about a retry that
+// travels on another connection while the refused attempt is still held back: for such histories only "no
+// panic, the tracer does not give up, every successful attempt's trace is handed over, the other name exactly
+// once" is demanded.
+
+type c15Listener struct {
+	conns  []*c15Conn
+	next   int
+	closed bool
+}
+
+var c15ErrAccept = errors.New("c15: accept failed")
+
+func (l *c15Listener) Accept() (net.Conn, error) {
+	if l.next >= len(l.conns) {
+		return nil, c15ErrAccept
+	}
+	c := l.conns[l.next]
+	l.next++
+	return c, nil
+}
+func (l *c15Listener) Close() error   { l.closed = true; return nil }
+func (l *c15Listener) Addr() net.Addr { return c15Addr{} }
+
+func c15LstOpConn(op string) int { return int(op[1] - '0') }
+
+// c15LstHistories: every well-formed history of 2..maxLen operations that contains a refusal, the first
+// refusal on connection 0 (the connections are interchangeable), at most three attempts of name A.
+func c15LstHistories(nconn, maxLen int) [][]string {
+	var alphabet []string
+	for _, k := range "rgsne" {
+		for c := 0; c < nconn; c++ {
+			alphabet = append(alphabet, fmt.Sprintf("%c%d", k, c))
+		}
+	}
+	alphabet = append(alphabet, "w")
+	var out [][]string
+	var rec func(h []string)
+	rec = func(h []string) {
+		if len(h) >= 2 {
+			refusal := false
+			for _, op := range h {
+				refusal = refusal || op[0] == 'r' || op[0] == 'g'
+			}
+			if refusal && !(h[len(h)-1] == "w" && h[len(h)-2] == "w" && len(h) >= 3 && h[len(h)-3] == "w") {
+				out = append(out, append([]string(nil), h...))
+			}
+		}
+		if len(h) == maxLen {
+			return
+		}
+		ended := make([]bool, nconn)
+		noStreams := make([]bool, nconn)
+		attempts, others, refusals, trailingW := 0, 0, 0, 0
+		for _, op := range h {
+			if op == "w" {
+				trailingW++
+				continue
+			}
+			trailingW = 0
+			c := c15LstOpConn(op)
+			switch op[0] {
+			case 'r', 'g', 's':
+				attempts++
+				if op[0] != 's' {
+					refusals++
+				}
+				if op[0] == 'g' {
+					noStreams[c] = true
+				}
+			case 'n':
+				others++
+			case 'e':
+				ended[c] = true
+			}
+		}
+		for _, op := range alphabet {
+			if op == "w" {
+				if len(h) == 0 || trailingW >= 2 {
+					continue
+				}
+				rec(append(h, op))
+				continue
+			}
+			c := c15LstOpConn(op)
+			if ended[c] {
+				continue
+			}
+			switch op[0] {
+			case 'r', 'g', 's':
+				if noStreams[c] || attempts >= 3 {
+					continue
+				}
+				if refusals == 0 && op[0] != 's' && c != 0 { // the first refusal happens on connection 0
+					continue
+				}
+			case 'n':
+				if noStreams[c] || others >= 1 {
+					continue
+				}
+			}
+			rec(append(h, op))
+		}
+	}
+	rec(nil)
+	return out
+}
+
+type c15LstExpect struct {
+	A      []c15RetryDelivery // deliveries of test name A (strict unless Cross)
+	Cross  bool               // an attempt of A started on one connection while a refused one was held back on another
+	Succ   []int              // attempts of A that succeeded
+	Other  bool               // the other test name occurs (exactly one trace, a success)
+	OtherT time.Duration
+	End    time.Duration
+}
+
+func c15LstModel(ops []string, nconn int) c15LstExpect {
+	var e c15LstExpect
+	type held struct {
+		attempt  int
+		outcome  byte
+		deadline time.Duration
+	}
+	pending := make([]*held, nconn)
+	var now time.Duration
+	expire := func() { // waits that have run out, in the order of their deadlines
+		for {
+			best := -1
+			for c, p := range pending {
+				if p != nil && p.deadline < now && (best < 0 || p.deadline < pending[best].deadline) {
+					best = c
+				}
+			}
+			if best < 0 {
+				return
+			}
+			e.A = append(e.A, c15RetryDelivery{pending[best].attempt, pending[best].outcome, pending[best].deadline})
+			pending[best] = nil
+		}
+	}
+	gone := func(c int) {
+		expire()
+		if p := pending[c]; p != nil {
+			e.A = append(e.A, c15RetryDelivery{p.attempt, p.outcome, now})
+			pending[c] = nil
+		}
+	}
+	ended := make([]bool, nconn)
+	attempt := 0
+	for _, op := range ops {
+		if op == "w" {
+			now += 2 * time.Second
+			continue
+		}
+		c := c15LstOpConn(op)
+		switch op[0] {
+		case 'r', 'g', 's':
+			attempt++
+			expire()
+			pending[c] = nil // replaced for good
+			for d, p := range pending {
+				if d != c && p != nil {
+					e.Cross = true
+				}
+			}
+			if op[0] == 's' {
+				e.A = append(e.A, c15RetryDelivery{attempt, 'S', now})
+				e.Succ = append(e.Succ, attempt)
+			} else {
+				pending[c] = &held{attempt, byte(op[0] - 'a' + 'A'), now + retryWait}
+			}
+		case 'n':
+			e.Other, e.OtherT = true, now
+		case 'e':
+			gone(c)
+			ended[c] = true
+		}
+	}
+	for c := 0; c < nconn; c++ {
+		if !ended[c] {
+			gone(c)
+		}
+	}
+	e.End = now
+	return e
+}
+
+// must be called inside a synctest bubble
+func c15RunLstCase(cs *c15ConnCase) (res c15Result, vs []c15Verdict) {
+	nconn := cs.NConn
+	unders := make([]*c15Conn, nconn)
+	for i := range unders {
+		unders[i] = &c15Conn{wrN: -1}
+	}
+	lst := &c15Listener{conns: unders}
+	col := &c15Collector{}
+	start := time.Now()
+	var traced net.Listener
+	if !c15Guard("TracingHTTP2Listener", &res, func() { traced = TracingHTTP2Listener(lst, col) }) {
+		return res, []c15Verdict{{"panic:" + res.Panic, res.PanicVal}}
+	}
+	conns := make([]net.Conn, nconn)
+	encs := make([][2]*c15DirEnc, nconn)
+	streams := make([]uint32, nconn)
+	note := func(format string, a ...any) {
+		if res.Opaque == "" {
+			res.Opaque = fmt.Sprintf(format, a...)
+		}
+	}
+	alive := true
+	send := func(c int, items []c15Item) {
+		for i := range items {
+			if !alive {
+				return
+			}
+			it := &items[i]
+			data := encs[c][it.Dir].encode(it)
+			under := unders[c]
+			res.Steps++
+			if it.Dir == c15DirReq { // the server reads what the client sent
+				under.rdData, under.rdErr = data, nil
+				buf := make([]byte, len(data)+4)
+				alive = c15Guard("Read", &res, func() {
+					if n, err := conns[c].Read(buf); n != len(data) || err != nil || !bytes.Equal(buf[:n], data) {
+						note("connection %d Read: (%d, %v), underlying returned (%d, nil)", c, n, err, len(data))
+					}
+				})
+			} else {
+				under.wrN, under.wrErr = -1, nil
+				alive = c15Guard("Write", &res, func() {
+					if n, err := conns[c].Write(data); n != len(data) || err != nil || !bytes.Equal(under.lastBytes, data) {
+						note("connection %d Write: (%d, %v), underlying returned (%d, nil)", c, n, err, len(data))
+					}
+				})
+			}
+		}
+	}
+	for c := 0; c < nconn && alive; c++ {
+		alive = c15Guard("Accept", &res, func() {
+			conn, err := traced.Accept()
+			if err != nil || conn == nil {
+				note("Accept %d: (%v, %v), the underlying listener returned a connection", c, conn, err)
+				conn = unders[c]
+			}
+			conns[c] = conn
+		})
+		encs[c] = [2]*c15DirEnc{c15NewDirEnc(), c15NewDirEnc()}
+		streams[c] = 1
+		if alive {
+			send(c, c15Prologue())
+		}
+	}
+	if alive { // once its connections are handed out the listener reports its own errors unchanged
+		c15Guard("Accept", &res, func() {
+			if conn, err := traced.Accept(); conn != nil || err != c15ErrAccept {
+				note("Accept after the last connection: (%v, %v), the underlying listener returned (nil, %v)", conn, err, c15ErrAccept)
+			}
+		})
+	}
+	closeConn := func(c int) {
+		unders[c].clErr = nil
+		if !c15Guard("Close", &res, func() { _ = conns[c].Close() }) {
+			alive = false
+		}
+	}
+	ended := make([]bool, nconn)
+	attempt := 0
+	for _, op := range cs.Ops {
+		if !alive {
+			break
+		}
+		if op == "w" {
+			time.Sleep(2 * time.Second)
+			continue
+		}
+		c := c15LstOpConn(op)
+		switch op[0] {
+		case 'r', 'g', 's':
+			attempt++
+			send(c, c15AttemptItems(false, attempt, streams[c], byte(op[0]-'a'+'A')))
+			streams[c] += 2
+		case 'n':
+			send(c, c15AttemptItems(true, 1, streams[c], 'S'))
+			streams[c] += 2
+		case 'e':
+			ended[c] = true
+			switch cs.EndKind {
+			case "eof":
+				unders[c].rdData, unders[c].rdErr = nil, io.EOF
+				alive = c15Guard("Read", &res, func() {
+					if n, err := conns[c].Read(make([]byte, 16)); n != 0 || err != io.EOF {
+						note("connection %d Read: (%d, %v), underlying returned (0, EOF)", c, n, err)
+					}
+				})
+			case "write-fails":
+				ping := encs[c][c15DirResp].encode(&c15Item{Kind: 'N', Dir: c15DirResp})
+				unders[c].wrN, unders[c].wrErr = 0, c15ErrOther
+				alive = c15Guard("Write", &res, func() {
+					if n, err := conns[c].Write(ping); n != 0 || err != c15ErrOther {
+						note("connection %d Write: (%d, %v), underlying returned (0, %v)", c, n, err, c15ErrOther)
+					}
+				})
+			case "close":
+			default:
+				panic("c15: unknown end kind " + cs.EndKind)
+			}
+			if alive {
+				closeConn(c)
+			}
+		}
+	}
+	for c := 0; c < nconn && alive; c++ {
+		if !ended[c] {
+			closeConn(c)
+		}
+	}
+	for c := 0; c < nconn; c++ {
+		if tc, ok := conns[c].(*tracingHTTP2Conn); ok {
+			res.BrokenReq = res.BrokenReq || tc.readTracer.broken
+			res.BrokenResp = res.BrokenResp || tc.writeTracer.broken
+		}
+	}
+	col.mu.Lock()
+	res.Traces = append([]Trace(nil), col.traces...)
+	for _, at := range col.at {
+		res.TraceAt = append(res.TraceAt, at.Sub(start))
+	}
+	col.mu.Unlock()
+
+	if res.Opaque != "" {
+		vs = append(vs, c15Verdict{"listener:not-transparent", res.Opaque})
+	}
+	if res.Panic != "" {
+		return res, append(vs, c15Verdict{"panic:" + res.Panic, "panic on well-formed traffic: " + res.PanicVal})
+	}
+	if res.BrokenReq || res.BrokenResp {
+		return res, append(vs, c15Verdict{"tracer-gave-up", fmt.Sprintf("the frame tracer of a connection gave up on well-formed traffic (request direction=%v, response direction=%v)", res.BrokenReq, res.BrokenResp)})
+	}
+	exp := c15LstModel(cs.Ops, nconn)
+	byName := c15RetryGots(&res)
+	gsA := byName[c15RetryName(false)]
+	if !exp.Cross {
+		if key, ctx := c15RetryCheck(gsA, "test name A over the connections of one listener", exp.A); key != "" {
+			vs = append(vs, c15Verdict{"listener:" + key, ctx})
+		}
+	} else {
+		for _, a := range exp.Succ {
+			n := 0
+			for _, g := range gsA {
+				if g.attempt == fmt.Sprint(a) && g.outcome == 'S' {
+					n++
+				}
+			}
+			if n != 1 {
+				vs = append(vs, c15Verdict{"listener:trace-of-successful-attempt-missing", fmt.Sprintf("attempt %d of test name A succeeded (on another connection than the one that holds back a refused attempt): its trace was handed over %d times; delivered %s", a, n, c15RetryDescribe(gsA))})
+				break
+			}
+		}
+	}
+	gsB := byName[c15RetryName(true)]
+	if exp.Other {
+		if key, ctx := c15RetryCheck(gsB, "the call of the other test name", []c15RetryDelivery{{1, 'S', exp.OtherT}}); key != "" {
+			vs = append(vs, c15Verdict{"listener:other-call:" + key, ctx})
+		}
+	}
+	for n := range byName {
+		if n != c15RetryName(false) && !(exp.Other && n == c15RetryName(true)) {
+			vs = append(vs, c15Verdict{"listener:trace-unexpected", fmt.Sprintf("trace for test name %q which no call carries", n)})
+		}
+	}
+	return res, vs
+}
+
+func c15LstDetail(cs *c15ConnCase, v c15Verdict) string {
+	return fmt.Sprintf("%s [TracingHTTP2Listener, %d connections accepted; operations %v (r<c> / g<c> = attempt of A on connection c refused by RST_STREAM / dropped by GOAWAY, s<c> = attempt of A succeeds, n<c> = call of another name, e<c> = connection c goes away by %s, w = 2 s pass); remaining connections closed at the end]", v.Detail, cs.NConn, cs.Ops, cs.EndKind)
+}
+
+var c15LstEndKinds = []string{"eof", "close", "write-fails"}
+
+func c15LstBounds(thorough bool) (bounds [][2]int) { // (connections, longest history)
+	if thorough {
+		return [][2]int{{2, 6}, {3, 5}}
+	}
+	return [][2]int{{2, 5}, {3, 4}}
+}
+
+func (x *c15ConnRun) listeners(t *testing.T, thorough bool) {
+	for _, b := range c15LstBounds(thorough) {
+		hists := c15LstHistories(b[0], b[1])
+		if x.r.Shard == 0 {
+			x.r.Count(fmt.Sprintf("listener:histories-%d-connections", b[0]), int64(len(hists)))
+		}
+		const batch = 64
+		for lo := 0; lo < len(hists); lo += batch {
+			if x.over() {
+				return
+			}
+			hi := min(lo+batch, len(hists))
+			x.k++
+			if !x.r.Mine(x.k) {
+				continue
+			}
+			synctest.Test(t, func(t *testing.T) {
+				for _, ops := range hists[lo:hi] {
+					for _, kind := range c15LstEndKinds {
+						hasEnd := false
+						for _, op := range ops {
+							hasEnd = hasEnd || op[0] == 'e'
+						}
+						if !hasEnd && kind != "close" {
+							continue
+						}
+						cs := &c15ConnCase{Kind: "listener", Server: true, Ops: ops, NConn: b[0], EndKind: kind}
+						res, vs := c15RunLstCase(cs)
+						exp := c15LstModel(ops, b[0])
+						x.r.Eval(1)
+						x.r.NonTrivial("")
+						x.r.Outcome(fmt.Sprintf("listener:%d-connections:%d-traces", b[0], len(res.Traces)))
+						if exp.Cross {
+							x.r.Count("listener:cases-with-a-retry-on-another-connection(weak-oracle)", 1)
+						} else {
+							x.r.Count("listener:cases-strict-oracle", 1)
+						}
+						if x.k%97 == 1 && kind == "eof" && len(ops) == b[1] {
+							x.r.Sample(map[string]any{"case": cs, "model": c15RetryDescribeModel(exp.A), "cross": exp.Cross, "traces": len(res.Traces)})
+						}
+						for _, v := range vs {
+							x.r.Violate(v.Key, c15LstDetail(cs, v), cs)
+						}
+					}
+				}
+			})
+		}
+	}
+}
+
+// ---------------------------------------------------------------------------
 
 func c15ConnFamilies() map[string]bool {
 	sel := os.Getenv("VERIF_C15_CONN")
 	if sel == "" {
-		sel = "endings,retries"
+		sel = "endings,retries,listener"
 	}
 	m := map[string]bool{}
 	for _, f := range strings.Split(sel, ",") {
@@ -916,6 +1410,9 @@ func TestVerifC15Conn(t *testing.T) {
 	if fam["retries"] {
 		rules = append(rules, "retry case = (history of 1..4 attempts of one test name, each refused | succeeds | cancelled by the client | reset by the server, time between the end of one attempt and the start of the next from {0, 1 s, 2.9 s, 3.1 s, 5 s} (virtual), with or without another call that is refused and never retried, connection ends at once | 5 s later | with io.EOF, side); cases distinct by construction, each demands at least one trace")
 	}
+	if fam["listener"] {
+		rules = append(rules, "listener case = (2 or 3 connections accepted from one TracingHTTP2Listener, history of operations {attempt of name A on connection c refused by RST_STREAM | dropped by graceful GOAWAY | succeeds, call of another name on c, connection c goes away, 2 s pass} that contains a refusal (first refusal on connection 0), way a connection goes away: io.EOF | Close | failing Write); distinct by construction, each demands at least one trace")
+	}
 	r.Rule = strings.Join(rules, " || ")
 	if in := rep.ReplayInput(); in != nil {
 		c15ReplayConn(t, r, in)
@@ -926,6 +1423,9 @@ func TestVerifC15Conn(t *testing.T) {
 	x := &c15ConnRun{r: r, deadline: rep.Deadline()}
 	if fam["retries"] {
 		x.retries(t, thorough)
+	}
+	if fam["listener"] {
+		x.listeners(t, thorough)
 	}
 	if fam["endings"] {
 		pairs := c15ConnPairs(thorough)
@@ -939,7 +1439,7 @@ func TestVerifC15Conn(t *testing.T) {
 			synctest.Test(t, func(t *testing.T) { x.endingsOfPair(p) })
 		}
 	}
-	r.Extra["bound"] = fmt.Sprintf("endings: %d quick / %d thorough shape pairs, all interleavings, every prefix of the script and every prefix plus half a frame, %d ways for the connection to go away, both sides; retries: histories of up to 4 attempts with 4 outcomes each, gaps from %v ms after a refusal (quick: {0, 3100} after another outcome), 2 x 3 x 2 surroundings",
+	r.Extra["bound"] = fmt.Sprintf("endings: %d quick / %d thorough shape pairs, all interleavings, every prefix of the script and every prefix plus half a frame, %d ways for the connection to go away, both sides; retries: histories of up to 4 attempts with 4 outcomes each, gaps from %v ms after a refusal (quick: {0, 3100} after another outcome), 2 x 3 x 2 surroundings; listener: histories of 2..5 operations over 2 connections and 2..4 over 3 (thorough 6 / 5), at most 3 attempts of the retried name, 3 ways for a connection to go away",
 		len(c15ConnPairs(false)), len(c15ConnPairs(true)), len(c15ConnEndings), c15RetryGapsMs)
 }
 
@@ -977,6 +1477,13 @@ func c15ReplayConn(t *testing.T, r *rep.Report, in []byte) {
 			fmt.Printf("replay %s: side=%s history=%s gaps=%v other=%v fin=%s\n model: %v, connection gone at %v\n", rec.Key, c15Side(cs.Server), cs.Hist, cs.Gaps, cs.Other, cs.Fin, m, end)
 			for i := range vs {
 				vs[i].Detail = c15RetryDetail(&cs, vs[i])
+			}
+		case "listener":
+			res, vs = c15RunLstCase(&cs)
+			exp := c15LstModel(cs.Ops, cs.NConn)
+			fmt.Printf("replay %s: listener with %d connections, operations %v, connections end by %s\n model for name A: %s (retry on another connection while a refused attempt is held back: %v), connections gone at %v\n", rec.Key, cs.NConn, cs.Ops, cs.EndKind, c15RetryDescribeModel(exp.A), exp.Cross, exp.End)
+			for i := range vs {
+				vs[i].Detail = c15LstDetail(&cs, vs[i])
 			}
 		default:
 			t.Fatalf("replay case of unknown kind %q", cs.Kind)
